@@ -163,6 +163,17 @@ bool index_read(zckCtx *zck, char *data, size_t size, size_t max_length) {
             zck->index.first = new;
         prev = new;
     }
+    /* The entries must fill the index exactly, and there must be as many as
+     * the index claims (at least the dict chunk) */
+    if(length != size) {
+        set_fatal_error(zck, "Index entries don't match the index size");
+        return false;
+    }
+    if(zck->index.count != (size_t)count || count == 0) {
+        set_fatal_error(zck, "Index claims %llu chunks but contains %i",
+                        (long long unsigned) zck->index.count, count);
+        return false;
+    }
     free(zck->index_string);
     zck->index_string = NULL;
     return true;
